@@ -11,6 +11,7 @@ import Swim.Drv.C03
 import Swim.Drv.Sim
 import Swim.Drv.Cluster
 import Swim.Drv.Scale
+import Swim.Drv.Select
 /-! Line-protocol driver: `<PROP> <kind> k=v ...` in, `<PROP> <id> <agree|DISAGREE> <ok|BAD:..> ...` out. -/
 open Swim.Parse
 
@@ -22,6 +23,7 @@ def dispatch (line : String) : String :=
     let id := getD fs "id" "?"
     let body := if kind == "scale" then Swim.Drv.Scale.handle fs
       else if kind == "lockstir" then Swim.Drv.Scale.handleLockStir fs
+      else if kind == "movedead" || kind == "krand" || kind == "gossipsel" || kind == "ppsel" || kind == "relaysel" then Swim.Drv.Select.handle kind fs
       else if kind == "stir" then Swim.Drv.Merge.handle prop kind fs else match prop with
       | "C17" => Swim.Drv.C17.handle kind fs
       | "C03" => if kind == "hist" then Swim.Drv.Merge.handle "C06" kind fs else Swim.Drv.C03.handle kind fs
